@@ -139,6 +139,40 @@ def float_affine(chk: Check, n):
                     break
 
 
+def float_zero_linearised(chk: Check, n):
+    """a RATIO covariate whose linearisation has zero variance although one of its columns varies (numerator
+    covariate identically 0 over a varying denominator covariate; or both columns proportional): the covariate carries
+    no information, the result must be the unadjusted one"""
+    import numpy as np
+    import pyarrow as pa
+    import tea_tasting as tt
+    rng = np.random.default_rng(chk.seed + 67)
+    for k in range(n):
+        alt, ev, ut = analysis.CELLS[k % len(analysis.CELLS)]
+        nc, nt = int(rng.integers(10, 80)), int(rng.integers(10, 80))
+        x = rng.normal(5, 2, nc + nt)
+        y = rng.integers(1, 6, nc + nt).astype(float)
+        dcov = rng.integers(1, 9, nc + nt).astype(float)
+        kind = ("numerator covariate identically 0", "numerator covariate = 2 x denominator covariate")[k % 2]
+        ncov = np.zeros(nc + nt) if k % 2 == 0 else 2.0 * dcov
+        data = pa.table({"variant": [0] * nc + [1] * nt, "x": x, "y": y, "ncov": ncov, "dcov": dcov})
+        kw = dict(alternative=alt, equal_var=ev, use_t=ut)
+        chk.case(("zero-linearised", kind, alt, ev, ut))
+        chk.branch("consequence:zero-variance-linearised")
+        try:
+            r1 = tt.RatioOfMeans("x", "y", "ncov", "dcov", **kw).analyze(data, 0, 1, "variant")
+            r0 = tt.RatioOfMeans("x", "y", **kw).analyze(data, 0, 1, "variant")
+        except Exception as ex:  # noqa: BLE001
+            chk.fail("analysis raised with a ratio covariate of zero variance", dict(kind=kind, options=kw, error=repr(ex)))
+            continue
+        for f in analysis.FIELDS:
+            u, v = float(getattr(r0, f)), float(getattr(r1, f))
+            if not (u == v or (math.isnan(u) and math.isnan(v)) or abs(u - v) <= 1e-9 * max(abs(u), abs(v)) + 1e-12):
+                chk.fail(f"a ratio covariate with zero variance ({kind}) changed field {f}",
+                         dict(options=kw, n=[nc, nt], field=f, without=u, with_covariate=v, seed=chk.seed, case=k))
+                break
+
+
 def build(chk, n_per_kind, max_rows=14):
     cases = []
     i = 0
@@ -167,6 +201,7 @@ def main():
     if chk.tier == "thorough":
         run_cases(chk, build(chk, 60), family=2, with_gen=have_model, label="[family 2] ")
     consequences(chk, cases[:: 2 if chk.tier == "quick" else 1])
+    float_zero_linearised(chk, 12 if chk.tier == "quick" else 120)
     float_affine(chk, 12 if chk.tier == "quick" else 96)
     chk.cov["rule"] = ("random rational data sets (2..28 rows per variant, balanced and 1:many), metric kinds "
                        "Mean+covariate / ratio+numerator covariate / ratio+ratio covariate, covariate modes "
